@@ -229,9 +229,11 @@ def run(ck):
     finally:
         shutil.rmtree(work, ignore_errors=True)
     ck.cov["evaluations"] = 4 * len(cases) + len(rowcheck) + len(evl) + ncli
-    ck.cov["distinct_nontrivial"] = nrows
+    # the number of traced programs is stable across seeds; the number of rows depends on how long the sampled programs run
+    ck.cov["distinct_nontrivial"] = len(cases)
+    ck.cov["rows_reevaluated"] = nrows
     ck.cov["rule"] = ("typed random raw CLVM programs, all (op X Y) over 12 operators x 7 operand shapes, compiled generated programs of every dialect; for each the full CldbRun trace: numbering, final entry vs clvmr, "
-                      "every row (Operator, Arguments, Value) re-evaluated with clvmr as (op (q . a1) ...); cldb CLI plain and -t views on source vs -x hex input; non-trivial = rows re-evaluated")
+                      "every row (Operator, Arguments, Value) re-evaluated with clvmr as (op (q . a1) ...); cldb CLI plain and -t views on source vs -x hex input; non-trivial = programs traced (rows re-evaluated are counted separately)")
     ck.cov["samples"] = [lines[0][:300], {"row": evm[0][2] if evm else None}]
     ck.cov["programs"] = len(cases)
     ck.cov["compiled_programs"] = comp
